@@ -42,7 +42,7 @@ PROFILES = {
         design=[("MuxPool", "mp_cur2.cfg", True), ("MuxPool", "mp_fix2.cfg", True), ("MuxPool", "mp_fix1.cfg", True),
                 ("MuxPoolTick", "mp_tick2.cfg", True),
                 ("MuxPool", "mp_cls_sesserr.cfg", False), ("MuxPool", "mp_cls_ret.cfg", False), ("MuxPool", "mp_cls_add.cfg", False)],
-        bfs=[("bfs_n1.cfg", 1, None)], gen=[("sim_n2.cfg", 2, 150), ("sim_n3.cfg", 3, 150)], limit=2500,
+        bfs=[("bfs_n1.cfg", 1, None)], gen=[("sim_n2.cfg", 2, 150), ("sim_n3.cfg", 3, 150)], limit=2800,
         loop=[("loop_n1.cfg", 1, 8), ("loop_n2.cfg", 2, 20), ("loop_n3.cfg", 3, 20)]),
     "thorough": dict(
         design=[("MuxPool", "mp_cur2.cfg", True), ("MuxPool", "mp_cur3.cfg", True), ("MuxPool", "mp_fix1.cfg", True),
@@ -50,7 +50,7 @@ PROFILES = {
                 ("MuxPoolTick", "mp_tick2.cfg", True), ("MuxPoolTick", "mp_tick3.cfg", True),
                 ("MuxPool", "mp_pinned.cfg", False),
                 ("MuxPool", "mp_cls_sesserr.cfg", False), ("MuxPool", "mp_cls_ret.cfg", False), ("MuxPool", "mp_cls_add.cfg", False)],
-        bfs=[("bfs_n1.cfg", 1, None), ("bfs_n2.cfg", 2, None)],
+        bfs=[("bfs_n1.cfg", 1, None), ("bfs_n1e.cfg", 1, None), ("bfs_n2.cfg", 2, None)],
         gen=[("sim_n1.cfg", 1, 300), ("sim_n2.cfg", 2, 1500), ("sim_n3.cfg", 3, 1500)], limit=40000,
         loop=[("loop_n1.cfg", 1, None), ("loop_n2.cfg", 2, None), ("loop_n3.cfg", 3, 400)]),
 }
@@ -58,7 +58,7 @@ OBS_RE = re.compile(r'<<(\d+), "(\w+)", (-?\d+), (-?\d+)>>')
 CAUSES = {("SessErr", True): "conn-open-after-sessionFn-error",
           ("SessErr", False): "attempt-in-flight-at-cancel",
           ("PingFail", False): "attempt-in-flight-at-cancel",
-          ("PingOk", False): "add-after-cancel"}
+          ("PingOk", False): "add-after-cancel", ("Add", False): "add-after-cancel"}
 
 
 def load_extra_findings(c):
@@ -70,11 +70,33 @@ def leak_cause(run, conn):
     """Which call of the attempt that owned `conn` ended it, and was the context already done (logged, not guessed)."""
     last = None
     for e in run:
-        if e["ev"] == "Cmd" and e.get("c") == conn and e["a"] in ("DialOk", "SessOk", "SessErr", "PingOk", "PingFail"):
+        if e["ev"] == "Cmd" and e.get("c") == conn and e["a"] in ("DialOk", "SessOk", "SessErr", "PingOk", "PingFail", "Add"):
             last = e
     if last is None:
         return "unexplained-unknown-conn"
     return CAUSES.get((last["a"], bool(last["running"])), "unexplained-after-%s-%s" % (last["a"], "running" if last["running"] else "cancelled"))
+
+
+def proxy_panicked(logpath):
+    """Text of the panic iff the process died of a Go panic / fatal error whose FIRST goroutine stack has a frame in
+    non-test code of <repo>/transport/mux (not a zz_verif harness file, not a _test.go file, not a dependency); else ''."""
+    try:
+        text = open(logpath, errors="replace").read()
+    except OSError:
+        return ""
+    ks = [k for k in (text.find("panic: "), text.find("fatal error: ")) if k >= 0]
+    if not ks:
+        return ""
+    k = min(ks)
+    if "out of memory" in text[k:k + 400] or "test timed out" in text[k:k + 200]:
+        return ""
+    first = "\n\n".join(text[k:].split("\n\n")[:2])      # message + the panicking goroutine's stack
+    for line in first.split("\n"):
+        line = line.strip()
+        if "/transport/mux/" in line and ".go:" in line and "zz_verif" not in line and "_test.go" not in line \
+                and "/pkg/mod/" not in line:
+            return text[k:k + 4000]
+    return ""
 
 
 def parse_hist(line):
@@ -170,6 +192,7 @@ def run(c, a):
         for i, s in enumerate(scheds):
             s["id"] = "s%d" % i
             s["role"] = "client" if i % 2 == 0 else "server"
+            s["addgate"] = any(x["a"] == "Add" for x in s["cmds"])
         c.coverage["behaviour_sets"] = exhaustive
         c.coverage["truncated_behaviours"] = truncated[0]
     # ---- 3. real code
@@ -186,11 +209,26 @@ def run(c, a):
     res = c.run_shards(binpath, "^TestVerifMuxPoolSchedules$", files, os.path.join(c.scratch, "muxpool-out"),
                        timeout=600, cwd=os.path.join(REPO, "transport", "mux"))
     events = []
-    for rc, out, outp in res:
-        if rc != 0 or not os.path.exists(outp):
-            raise Broken("harness shard failed rc=%s: %s" % (rc, out[-1500:]))
-        for line in open(outp):
-            events.append(json.loads(line))
+    crashed = []
+    for (rc, out, outp), inp in zip(res, files):
+        if rc != 0:
+            # a harness process that died of a panic whose stack runs through non-test code of /repo/transport/mux is a
+            # verdict (the proxy crashed), not a broken check; what it recorded before is still judged
+            txt = proxy_panicked(outp + ".log")
+            if not txt:
+                raise Broken("harness shard failed rc=%s: %s" % (rc, out[-1500:]))
+            crashed.append((inp, outp, txt))
+        if not os.path.exists(outp):
+            if rc != 0:
+                continue
+            raise Broken("harness shard wrote no output: %s" % out[-1500:])
+        for line in open(outp, errors="replace"):
+            try:
+                events.append(json.loads(line))
+            except ValueError:
+                if rc == 0:
+                    raise Broken("unreadable trace line in %s" % outp)
+                break       # the line being written when the process died
     # ---- 4. monitor
     lines = [json.dumps(e) for e in events]
     ro = c.tlc("MuxPool", "MuxPoolObs", "obs.cfg", workers=1, timeout=1200, files={"trace.ndjson": "\n".join(lines) + "\n"},
@@ -208,6 +246,32 @@ def run(c, a):
         run_of.append(len(runs) - 1)
         runs[-1].append(e)
     by_id = {s["id"]: s for s in scheds}
+    for inp, outp, txt in crashed:
+        # the schedule that was running: the first one of the shard's input without an End event in its output
+        ended, last_cfg = set(), None
+        if os.path.exists(outp):
+            cur = None
+            for line in open(outp, errors="replace"):
+                try:
+                    e = json.loads(line)
+                except ValueError:
+                    break
+                if e["ev"] == "Config":
+                    cur = e.get("id", "").split("/")[0]
+                    last_cfg = cur
+                elif e["ev"] == "End" and cur:
+                    ended.add(cur)
+        running = None
+        for line in open(inp):
+            sc = json.loads(line)
+            if sc["id"] not in ended or (sc.get("loop") and sc["id"] == last_cfg):
+                running = sc
+                break
+        frames = [ln.strip() for ln in txt.split("\n") if "/transport/mux/" in ln and "zz_verif" not in ln][:3]
+        c.violation({"module": "MuxPool", "clause": "crash", "cause": "proxy-panic"},
+                    "the harness process died of a panic in proxy code: %s [%s] in schedule %s"
+                    % (txt.split("\n")[0][:200], "; ".join(frames), running and running["id"]),
+                    {"kind": "muxpool-crash", "clause": "crash", "schedule": running, "panic": txt[:3000]})
     for s in scheds:
         if s.get("loop"):       # a loopback schedule is recorded as two runs, one per pool
             by_id[s["id"] + "/establisher"] = s
@@ -241,7 +305,7 @@ def run(c, a):
     # provider) is a verdict; unrealised schedules WITHOUT any confirmed violation mean the generator and the code disagree
     if unreal > 0.2 * max(1, len(runs)) and not c.violations:
         raise Broken("%d of %d schedules could not be realised" % (unreal, len(runs)))
-    if len(runs) != len(scheds) + nloop:
+    if len(runs) != len(scheds) + nloop and not crashed:
         raise Broken("%d schedules (%d loopback) in, %d runs out" % (len(scheds), nloop, len(runs)))
     acts, locs, healed = {}, {}, 0
     for r in runs:
